@@ -135,7 +135,7 @@ CHECKS = {
         'text': '28 inner queries (filtered, aggregated, hidden-key ordered, DISTINCT, LIMIT, aliased, other/empty tables, containing IN-subqueries) x an outer menu generated from the inner output '
                 'columns (*, projections, expressions, WHERE, aggregation, ORDER BY, DISTINCT, LIMIT; 10-25 per inner), at depth 2 and, through wrappers, depth 3, x data variants of the base table '
                 '(a fixed table + ALL row sequences of length <= 1 (quick) / <= 2 (thorough) over 9 letters): rows AND description must equal the outer query run over a table materialising the real '
-                'inner result, and the rows must equal the reference interpreter; 140 IN / NOT IN (subquery) statements (targets first/middle/last, WHERE, two subqueries, nested, empty, NULLs) '
+                'inner result, and the rows must equal the reference interpreter; 140 IN / NOT IN (subquery) statements (targets first/middle/last, WHERE, two subqueries, nested, empty, NULLs, left operands that themselves contain IN / NOT IN over a list or a sub-query) '
                 'against reference membership; text statements with expression-named and duplicate-named inner outputs.',
         'note': 'Trusted: vt/ref/select.py. One open known finding (duplicate inner output names collapse in SELECT * FROM (q)).',
     },
@@ -171,7 +171,7 @@ CHECKS = {
         'engine': 'E-enum',
         'technique': 'bounded-exhaustive enumeration of typed expression trees x full operand-value product tables against a reference three-valued evaluator',
         'design_ref': 'DESIGN.md section 4, C01',
-        'text': 'Every overload of every operator in the live registry, BETWEEN, IN/NOT IN, AND/OR (2-3 args), NOT, IS [NOT] NULL, COALESCE per type and 45 total scalar '
+        'text': 'Every overload of every operator in the live registry, BETWEEN, IN/NOT IN, AND/OR (2-3 args; boolean operands and int / decimal / str / date operands counted by truth value), NOT, IS [NOT] NULL, COALESCE per type and 45 total scalar '
                 'function signatures, at depth 1 and at depth 2 with every depth-1 expression as child of every slot of its type (thorough: all slots at once and depth 3 over '
                 'representatives of each NULL-behaviour class), each evaluated as target and as WHERE on the table holding the FULL cartesian product of the alphabets of the columns '
                 'it reads (every NULL position, zero divisors, ties), plus empty / one-row / reversed tables and FROM conditions on the postings table; every cell compared by (type, value).',
@@ -195,7 +195,7 @@ CHECKS = {
         'text': 'ALL tables of <= 3 (quick) / <= 4 (thorough) rows over a 9-letter alphabet with NULLs and ties (row id makes stability observable) x ALL lists of 1..3 distinct keys out of 4 '
                 'candidates with every ASC/DESC vector (thorough adds all 4-key lists) x key forms (position, alias, repeated expression, hidden expression, mixed) x DISTINCT x LIMIT '
                 '{none,0,1,2,>size}; aggregate queries ordered by group keys / aggregates / hidden aggregates, DISTINCT over grouped queries whose key is not selected, DISTINCT over rows with colliding hashes, ORDER BY an alias shadowing a column, positional keys over duplicated names; every ordered pair of orderable columns of every Beancount table kind with a hidden '
-                'ORDER BY key; IN-subquery targets combined with a different IN-subquery ordering key.',
+                'ORDER BY key; IN-subquery targets combined with a different IN-subquery ordering key; every fourth table of the statement sweep also as a user table whose columns share one slot-less column class (the style of beanquery/tests/tables.py).',
         'note': 'Trusted: vt/ref/select.py (functools.cmp_to_key comparator, sorted() stability). Unorderable keys and unhashable rows are outside the property.',
     },
     'C11': {
